@@ -33,6 +33,17 @@ def main():
     demo_cmd = meta.get("demo_cmd", "")
     demo_cmd = demo_cmd.split("   (")[0].strip()
     res = {"property": pid, "label": label, "agent_meta": meta, "ran": {}}
+    phase = None
+    for i, a in enumerate(sys.argv):
+        if a == "--phase":
+            phase = sys.argv[i + 1]
+    cj = os.path.join(src, "confirm.json")
+    if phase == "2":
+        if not os.path.exists(cj):
+            print("no confirm.json: run --phase 1 first")
+            return 2
+        res["ran"] = json.load(open(cj))
+        return phase2(res, src, pid, label, checks, patch)
     wt = "/tmp/sv/%s-%s" % (pid, label)
     shutil.rmtree(wt, ignore_errors=True)
     sh("git -C /repo worktree prune")
@@ -76,6 +87,14 @@ def main():
     finally:
         sh("git -C /repo worktree remove --force %s" % wt)
         shutil.rmtree(wt, ignore_errors=True)
+    if phase == "1":
+        json.dump(res["ran"], open(cj, "w"), indent=1)
+        print("CONFIRMED", pid, label)
+        return 0
+    return phase2(res, src, pid, label, checks, patch)
+
+
+def phase2(res, src, pid, label, checks, patch):
     # run the checks against /repo with the patch applied
     rc, out = sh("git -C /repo status --porcelain --untracked-files=no")
     if out.strip():
